@@ -40,6 +40,7 @@ def main(argv=None):
         return 0
     if args.only:
         os.environ["VERIF_ONLY"] = args.only
+    os.environ["VERIF_TIER_RUN"] = args.tier
     return mod.main(args.tier)
 
 
